@@ -289,3 +289,27 @@ def run(ctx):
         tve = TU.vectorizable_stabilizer_expect(tgr, tpr, torch.tensor(go, dtype=F), torch.tensor(po, dtype=F), r)
         ctx.q('T.vectorizable_stabilizer_expect', 'T.vecexpect %d %s %s' % (r, H.erows_ops(rows), H.erows_ops(obs)), [ival(v) for v in tve.tolist()], E.dints)
         ctx.q('T.ipow', 'ipow %s %s' % (E.estr(ga), E.estr(gb)), ival(TU.ipow(tg(P[0]), tg(Q[0]))), int)
+        # second batch of torch kernels against their own model (Model/Torch.lean)
+        ctx.q('T.ipow(model)', 'T.ipow %s %s' % (E.estr(ga), E.estr(gb)), ival(TU.ipow(tg(P[0]), tg(Q[0]))), int)
+        ctx.q('T.acq(model)', 'T.acq %s %s' % (E.estr(ga), E.estr(gb)), ival(TU.acq(tg(P[0]), tg(Q[0]))), int)
+        ctx.q('T.ps0', 'T.p0 %s' % E.estr(ga), ival(TU.ps0(tg(P[0]).unsqueeze(0))[0]), int)
+        tam = TU.acq_mat(tgsP)
+        ctx.q('T.acq_mat', 'T.acqmat %s' % E.estrs(gsP.tolist()), [[ival(v) % 2 for v in row] for row in tam.tolist()],
+              lambda s_: [E.dints(r_) for r_ in s_.split(';')])
+        if len(Ps) >= 2:
+            tip = TU.ipow_product(tgsP[:2], tgsP[1:])
+            ctx.q('T.ipow_product', 'T.ipowproduct %s %s' % (E.estrs(gsP[:2].tolist()), E.estrs(gsP[1:].tolist())), [ival(v) for v in tip.tolist()], E.dints)
+        sel = [rng.randrange(2) for _q in range(len(Ps))]
+        tcb = TU.pauli_combine(torch.tensor([sel], dtype=F), tgsP, tpsP)
+        ctx.q('T.pauli_combine', 'T.combine %d %s %s' % (n, E.ebits(sel), H.erows_ops(Ps)),
+              O.from_gp([ival(v) for v in tcb[0][0].tolist()], ival(tcb[1][0])), lambda s_: H.drows_ops(s_)[0])
+        ctx.q('T.pauli_transform(model)', 'T.transform %s %s' % (H.erows_ops(M), H.erows_ops(Ps)),
+              [O.from_gp([ival(v) for v in g], ival(p)) for g, p in zip(tt[0].tolist(), tt[1].tolist())], H.drows_ops)
+        td1 = TU.pauli_diagonalize1(tg(nz), i0)
+        ctx.q('T.pauli_diagonalize1', 'T.diag1 %s %d' % (E.estr(O.to_g(nz)), i0), [[ival(v) for v in g.tolist()] for g in td1], E.dstrs)
+        nz2 = G.rand_letters(rng, n, 0.7)
+        if O.anticommute((nz, 0), (nz2, 0)):
+            td2 = TU.pauli_diagonalize2(tg(nz), tg(nz2), i0)
+            ctx.q('T.pauli_diagonalize2', 'T.diag2 %s %s %d' % (E.estr(O.to_g(nz)), E.estr(O.to_g(nz2)), i0),
+                  ([[ival(v) for v in g.tolist()] for g in td2[0]], [ival(v) for v in td2[1].tolist()], [ival(v) for v in td2[2].tolist()]),
+                  lambda s_: (E.dstrs(s_.split(' ')[0]), E.dstr(s_.split(' ')[1]), E.dstr(s_.split(' ')[2])))
